@@ -418,12 +418,15 @@ class JSONPatch:
             self._load(ops)
 
     def _load(self, patch: Union[str, IOBase, Iterable[Mapping[str, object]]]) -> None:
-        if isinstance(patch, IOBase):
-            _patch = json.loads(patch.read())
-        elif isinstance(patch, str):
-            _patch = json.loads(patch)
-        else:
-            _patch = patch
+        try:
+            if isinstance(patch, IOBase):
+                _patch = json.loads(patch.read())
+            elif isinstance(patch, str):
+                _patch = json.loads(patch)
+            else:
+                _patch = patch
+        except json.JSONDecodeError as err:
+            raise JSONPatchError(f"patch document is not valid JSON: {err}") from err
 
         try:
             self._build(_patch)
